@@ -185,6 +185,9 @@ LEVEL_NAME_POOLS = [
     ['class', 'subclass', 'supertype', 'cluster', 'subcluster', 'leafy'],
     ['L3', 'L1', 'L2', 'L0', 'L9', 'L5'],
     ['zeta', 'alpha', 'mid', 'beta', 'q', 'a'],
+    # every name a proper prefix of the next ones
+    ['type', 'type_fine', 'type_finer', 'type_finest', 'type_finest_x',
+     'type_finest_xy'],
 ]
 
 NODE_NAME_POOL = [
@@ -192,7 +195,9 @@ NODE_NAME_POOL = [
     'glut', 'gaba', 'astro', '07', '7', 'B', 'c', 'M', '100', '2', 'aa',
     'Ab', 'zz', 'k', 'K', 'q0', 'q00', 'w', 'e', 'r', 't', 'y', 'u', 'i',
     'o', 'p', 's', 'd', 'f', 'g', 'h', 'j', 'l', 'z', 'x', 'v', 'nn', 'm',
-    'CS01', 'CS10', 'CS02', 'CS1', 'T1', 'T10', 'T2', 'T20', 'T3', 'T30']
+    'CS01', 'CS10', 'CS02', 'CS1', 'T1', 'T10', 'T2', 'T20', 'T3', 'T30',
+    # labels with a slash, as in real taxonomies
+    'L2/3 IT', 'L5/6 NP', 'Sst/Chodl', 'x/y/z']
 
 CSV_NASTY_NAMES = [
     'a,b', 'say "hi"', 'x#y', '# lead', 'ünï', "it's", 'semi;colon',
